@@ -93,6 +93,14 @@ typedef struct console {
 
 	const console_cmd_t *cmd;
 	pt_t pt;
+
+	/*!
+	 * Cursor of console_eval().
+	 *
+	 * This cannot live in the scratch buffer because that is cleared
+	 * whenever a new prompt is issued.
+	 */
+	uint16_t eval_index;
 } console_t;
 
 /*!
